@@ -7,6 +7,7 @@ Definition eop_nonneg (op : eop) : Prop :=
   | OOffer n => 0 <= n
   | OBurst ns => Forall (fun n => 0 <= n) ns
   | OFlush => True
+  | OBurstShut ns => Forall (fun n => 0 <= n) ns
   end.
 
 Section Exporter.
@@ -106,7 +107,7 @@ Section Exporter.
 
   Lemma step_Inv st op : eop_nonneg op -> Inv st -> Inv (step o st op).
   Proof.
-    intros Hop H. destruct op as [n|ns|]; cbn [step].
+    intros Hop H. destruct op as [n|ns| |ns]; cbn [step]; [| | |apply gauge_Inv, fold_offer_Inv; assumption].
     - apply gauge_Inv. destruct (is_wfr o).
       + apply run_quiet_Inv, flush_cur_Inv, run_quiet_Inv, offer_Inv; assumption.
       + apply run_quiet_Inv, offer_Inv; assumption.
@@ -121,7 +122,7 @@ Section Exporter.
   Qed.
 
   Lemma init_Inv outs : Inv (init_est outs).
-  Proof. unfold Proofs2.Inv, Proofs2.K, infl_nf, qsum, fsum, cnt. cbn [init_est s_offered s_wfr_failed s_led s_queue s_cur s_hung s_flushq osum map sumZ lget]. repeat split; try lia; constructor. Qed.
+  Proof. unfold Proofs2.Inv, Proofs2.K, infl_nf, qsum, fsum, cnt. cbn [init_est s_offered s_led s_queue s_cur s_hung s_flushq osum map sumZ lget]. repeat split; try lia; constructor. Qed.
 
   Lemma release_hung_Inv st : Inv st -> Inv (release_hung o st).
   Proof.
@@ -183,7 +184,8 @@ Section Exporter.
     unfold consume. destruct (batch_cfg o) as [[mn mx]|]; [|unfold frame3; cbn; auto].
     destruct (s_cur st) as [[ci cd]|].
     - destruct (merge_split mx ci (Some (d_items d))) as [|first rest]; [apply frame_frame3, (fire_frame o Hsig)|].
-      pose proof (with_ref_frame3 st d (first :: rest)) as (A & B & C).
+      set (wl := if negb (1 <? Z.of_nat (length (first :: rest))) || negb (first =? ci) then first :: rest else rest).
+      pose proof (with_ref_frame3 st d wl) as (A & B & C).
       destruct ((1 <? Z.of_nat (length (first :: rest))) || (mn <=? first)); destruct rest;
         try destruct (last _ 0 <? mn); unfold frame3; cbn; auto.
     - destruct (merge_split mx (d_items d) None) as [|a l]; [apply frame_frame3, (fire_frame o Hsig)|].
